@@ -90,7 +90,7 @@ func (g *c12gen) newCase(kind string) {
 	g.dist[kind]++
 	g.cid = fmt.Sprintf("%s%d", kind, g.n)
 	g.stored = nil
-	if err := g.d.db.DropAll(); err != nil {
+	if err := g.d.verifBadger().DropAll(); err != nil {
 		panic(err)
 	}
 	fmt.Fprintf(g.w, "reset %s\n", g.cid)
@@ -150,7 +150,7 @@ func (g *c12gen) put(v *vaa.VAA) {
 }
 
 func (g *c12gen) raw(key []byte, val []byte) {
-	err := g.d.db.Update(func(txn *badger.Txn) error { return txn.Set(key, val) })
+	err := g.d.verifBadger().Update(func(txn *badger.Txn) error { return txn.Set(key, val) })
 	if err != nil {
 		panic(err)
 	}
